@@ -532,8 +532,10 @@ func raceWorkers(ov *raceOverlap, scripts [][]int) {
 				raceReadPayload(v)
 				d()
 			default:
-				// Wait needs the pool to have been used at least once (its cond is created by Call)
-				_, _ = w.Call(1, func() (any, error) { return nil, nil })
+				// Wait is legal on a pool that was never used, also while somebody else makes the very first Call
+				if op%2 == 0 {
+					_, _ = w.Call(1, func() (any, error) { return nil, nil })
+				}
 				d := ov.enter("Wait")
 				w.Wait()
 				d()
